@@ -455,6 +455,8 @@ Definition c06_show (c : c06_case) :=
 (* literal helpers for the generated case files: long runs of one character, and
    integers above 64 bits as little-endian 64-bit limbs *)
 Definition rep (k c : N) : str := N.iter k (cons c) [].
+(* k copies of a short text (generated case files: deeply nested / periodic names) *)
+Definition reps (k : N) (u : str) : str := N.iter k (fun acc => u ++ acc) [].
 Definition limbs (l : list N) : N := fold_right (fun x a => x + 18446744073709551616 * a) 0 l.
 
 (* a description whose type (and element type) has an enum value equal to its name: all
@@ -588,8 +590,12 @@ Inductive op :=
 | OReplace (i : nat) (ci : col_in)   (* schema.columns[i mod len] = FlatColumn(name, type) *)
 | OAppend (ci : col_in)              (* schema.columns.append(FlatColumn(name, type)) *)
 | OPop (n : str)                     (* schema.pop_column(n): removes the first column named n *)
-| ORetype (i : nat) (ci : col_in).   (* in place on the column OBJECT schema.columns[i mod len]:
+| ORetype (i : nat) (ci : col_in)    (* in place on the column OBJECT schema.columns[i mod len]:
                                         type, length, precision, scale, element_type = from_name(s) *)
+(* round 6: copies.  how = 0 copy.copy, 1 copy.deepcopy, 2 pickle.loads(pickle.dumps(.)): a copy is an
+   equal object, so which one is used makes no difference to what is reported *)
+| ODescribeCopy (how : nat)          (* DataFrame(rows=[], schema=<copy of the schema object>).description *)
+| OCopyColumn (i : nat) (how : nat). (* schema.columns[i mod len] = <copy of that column object> *)
 
 Inductive sobs :=
 | SDesc (now : schema) (r : result (list desc_obs))   (* the schema as read from the objects at this step; what .description did *)
@@ -650,6 +656,13 @@ Definition step (st : sess) (o : op) : sess * sobs :=
       | Ok d => (mkS (update_nth (idx_of i sch) (fun nc => (fst nc, d)) sch) (s_cache st), SDecl (Ok d))
       | Raise e => (st, SDecl (Raise e))
       end
+  | ODescribeCopy _ =>
+      (* a new frame on the copy: its names are computed afresh (and it becomes the cached frame, which
+         no frame of the session is: the same as an empty cache) *)
+      (mkS sch None,
+       SDesc sch (match describe_names sch (map fst sch) with Ok l => Ok (with_back l) | Raise e => Raise e end))
+  | OCopyColumn i _ =>
+      (st, match nth_error sch (idx_of i sch) with Some nc => SDecl (Ok (snd nc)) | None => SPop false end)
   end.
 
 Fixpoint run (st : sess) (ops : list op) : sess * list sobs :=
